@@ -1890,6 +1890,9 @@ def c02(ctx):
                                                         "Script: equals the published algorithm evaluated by TLC (Scripts.tla)"]})
     cov["states"] = v["tlc"].get("distinct", 1)
     cov["transitions"] = v["tlc"].get("generated", 1)
+    sdiv = [x["d"] for s_ in sv for x in s_.get("div", [])]
+    cov["script_model_divergences"] = {k: sdiv.count(k) for k in sorted(set(sdiv))}
+    cov["model_divergences"] += len(sdiv)
     return "model_checking", cov, ASSUME_COMMON + ["the released libxcrypt 4.4.33 is a conforming implementation of the published algorithms "
                                                     "(NEWS records no hashing change since); the numeric cores are not specified in TLA+ (DESIGN.md section 8)"]
 
